@@ -74,7 +74,12 @@ type Exec struct {
 	appendInfo map[string]*appendRec // backing array allocated by append -> its sources
 }
 
-type elemRef struct{ arr, idx Term }
+type elemRef struct {
+	arr, idx Term
+	sl       [3]Term // the slice (arr, off, len) the element was read through
+	rel      Term    // index relative to the slice
+	hasSl    bool
+}
 
 type appendRec struct {
 	s1, s2 [3]Term // (arr, off, len) of the two source slices
@@ -244,6 +249,14 @@ func (x *Exec) verify() (err error) {
 		}
 	}
 	env := &Env{x: x, st: st, old: x.entry, vars: vars, what: x.fname + " requires"}
+	for _, eg := range x.spec.EntryGhost {
+		env.what = x.fname + " entry-ghost"
+		p := env.evalPlace(eg[0].Expr)
+		v := env.coerce(env.eval(eg[1].Expr), p.T)
+		st.storeVal(p.addr, v)
+	}
+	x.entry = st.snap()
+	env.old = x.entry
 	for _, c := range x.spec.Req {
 		env.what = fmt.Sprintf("%s requires (%s:%d)", x.fname, shortFile(c.File), c.Line)
 		st.assume(env.evalBool(c.Expr))
@@ -284,7 +297,7 @@ func (x *Exec) writable(addr Term, sort string) Term {
 	if x.modAll {
 		return "true"
 	}
-	alts := []Term{"(> " + tRid(addr) + " " + x.allocEntry + ")"}
+	alts := []Term{"(> " + tOrid(addr) + " " + x.allocEntry + ")"}
 	for _, m := range x.modAddrs {
 		i := strings.Index(m, "|")
 		if m[:i] == sort {
@@ -415,11 +428,23 @@ func (x *Exec) loopEnv(st *State, fr *Frame, li *loopInfo) *Env {
 		}
 		if phi.Comment == "rangeindex" {
 			vars["it_"] = intVal("(+ " + v.L[0] + " 1)")
+			// rng_: the collection being ranged over (the slice indexed by phi+1 in the body)
+			for b := range li.body {
+				for _, bi := range b.Instrs {
+					if ia, ok := bi.(*ssa.IndexAddr); ok {
+						if bo, ok := ia.Index.(*ssa.BinOp); ok && bo.X == ssa.Value(phi) {
+							if rv, ok := fr.regs[ia.X]; ok {
+								vars["rng_"] = rv
+							}
+						}
+					}
+				}
+			}
 		} else if phi.Comment != "" {
 			vars[phi.Comment] = v
 		}
 	}
-	return &Env{x: x, st: st, old: x.entry, vars: vars}
+	return &Env{x: x, st: st, old: x.entry, vars: vars, loopSnap: st.loopSnaps[li.head]}
 }
 
 func (x *Exec) checkInvariants(st *State, fr *Frame, li *loopInfo, phase string) {
@@ -427,8 +452,16 @@ func (x *Exec) checkInvariants(st *State, fr *Frame, li *loopInfo, phase string)
 	env := x.loopEnv(st, fr, li)
 	for k, c := range ls.Invs {
 		env.what = fmt.Sprintf("%s loop %d invariant (%s:%d)", x.prog.relName(fr.fn), li.ordinal, shortFile(c.File), c.Line)
-		g := env.evalBool(c.Expr)
-		x.oblige(st, "inv"+fmt.Sprint(li.ordinal)+"."+phase, fmt.Sprint(k), g, x.propsFor(c), c.Text, token.NoPos)
+		parts := x.splitConj(c.Expr, 0)
+		for j, pe := range parts {
+			d := fmt.Sprint(k)
+			desc := c.Text
+			if len(parts) > 1 {
+				d = fmt.Sprintf("%d.%d", k, j)
+				desc += "  [conjunct: " + exprString(pe) + "]"
+			}
+			x.oblige(st, "inv"+fmt.Sprint(li.ordinal)+"."+phase, d, env.evalBool(pe), x.propsFor(c), desc, token.NoPos)
+		}
 	}
 }
 
@@ -520,9 +553,9 @@ func (x *Exec) havocLoop(st *State, fr *Frame, li *loopInfo) {
 			if all {
 				return "false"
 			}
-			cs := []Term{"(<= " + tRid(a) + " " + allocHead + ")"}
+			cs := []Term{"(<= " + tOrid(a) + " " + allocHead + ")"}
 			for _, r := range localRoots {
-				cs = append(cs, tNot(tEq(tRid(a), r)))
+				cs = append(cs, tNot(tEq(tOrid(a), r)))
 			}
 			if len(loopMods) > 0 {
 				for _, m := range loopMods {
@@ -535,7 +568,7 @@ func (x *Exec) havocLoop(st *State, fr *Frame, li *loopInfo) {
 				if modAll {
 					return "false"
 				}
-				cs = append(cs, "(<= "+tRid(a)+" "+allocEntry+")")
+				cs = append(cs, "(<= "+tOrid(a)+" "+allocEntry+")")
 				for _, m := range entryMods {
 					i := strings.Index(m, "|")
 					if m[:i] == sort {
@@ -604,6 +637,10 @@ func (x *Exec) enterBlock(st *State, b *ssa.BasicBlock, pred *ssa.BasicBlock) {
 			x.paths++
 			return
 		}
+		if st.loopSnaps == nil {
+			st.loopSnaps = map[*ssa.BasicBlock]*snapshot{}
+		}
+		st.loopSnaps[b] = st.snap()
 		x.checkInvariants(st, fr, li, "establish")
 		x.havocLoop(st, fr, li)
 	}
@@ -787,7 +824,7 @@ func (x *Exec) step(st *State, b *ssa.BasicBlock, idx int, in ssa.Instruction) b
 			x.oblige(st, "index", describe(in.X), tAnd("(<= 0 "+i.L[0]+")", "(< "+i.L[0]+" "+base.L[2]+")"), x.spec.Props, "index in range", in.Pos())
 			st.assume(tAnd("(<= 0 "+i.L[0]+")", "(< "+i.L[0]+" "+base.L[2]+")"))
 			ea := extendIdx(base.L[0], tAddInt(base.L[1], i.L[0]))
-			x.elemInfo[ea] = elemRef{arr: base.L[0], idx: tAddInt(base.L[1], i.L[0])}
+			x.elemInfo[ea] = elemRef{arr: base.L[0], idx: tAddInt(base.L[1], i.L[0]), sl: [3]Term{base.L[0], base.L[1], base.L[2]}, rel: i.L[0], hasSl: true}
 			x.setReg(st, in, Val{T: in.Type(), L: []Term{ea}})
 		case *types.Pointer:
 			arr := bt.Elem().Underlying().(*types.Array)
